@@ -33,6 +33,12 @@ pub trait RateLimiter: State {
     /// Bump the rate limit internal counter, as we've routed a message
     /// to a worker
     fn bump(&mut self);
+
+    /// cfg-only: the current balance (-1: not a counting limiter)
+    #[cfg(ractor_verif)]
+    fn verif_balance(&self) -> i64 {
+        -1
+    }
 }
 
 /// A generic struct which wraps the message router and adds support for a rate-limiting implementation to rate limit
@@ -98,6 +104,17 @@ where
 
     fn on_worker_availability_change(&mut self, wid: WorkerId, available: bool) {
         self.router.on_worker_availability_change(wid, available);
+    }
+
+    #[cfg(ractor_verif)]
+    fn verif_state(&self) -> String {
+        let inner = self.router.verif_state();
+        let bal = format!("\"bal\":{}", self.rate_limiter.verif_balance());
+        if inner.is_empty() {
+            bal
+        } else {
+            format!("{inner},{bal}")
+        }
     }
 }
 
@@ -189,6 +206,11 @@ impl RateLimiter for LeakyBucketRateLimiter {
         if self.balance > 0 {
             self.balance -= 1;
         }
+    }
+
+    #[cfg(ractor_verif)]
+    fn verif_balance(&self) -> i64 {
+        i64::try_from(self.balance).unwrap_or(i64::MAX)
     }
 }
 
